@@ -411,6 +411,7 @@ func (m *Mux) serveHTTP(w http.ResponseWriter, r *http.Request) error {
 	if isWebsocket {
 		conn, _, _, err := ws.UpgradeHTTP(r, w)
 		if err != nil {
+			m.opts.endRPC(ctx, beginTime, err)
 			return err
 		}
 		defer conn.Close()
@@ -440,13 +441,16 @@ func (m *Mux) serveHTTP(w http.ResponseWriter, r *http.Request) error {
 			f := ws.NewCloseFrame(ws.NewCloseFrameBody(code, msg))
 			b, err := ws.CompileFrame(f)
 			if err != nil {
+				m.opts.endRPC(ctx, beginTime, herr)
 				return err
 			}
 			if _, err := conn.Write(b); err != nil {
+				m.opts.endRPC(ctx, beginTime, herr)
 				return err
 			}
 		} else {
 			if _, err := conn.Write(ws.CompiledClose); err != nil {
+				m.opts.endRPC(ctx, beginTime, herr)
 				return err
 			}
 		}
@@ -474,6 +478,7 @@ func (m *Mux) serveHTTP(w http.ResponseWriter, r *http.Request) error {
 	if cz := m.opts.compressors[contentEncoding]; cz != nil {
 		z, err := cz.Decompress(r.Body)
 		if err != nil {
+			m.opts.endRPC(ctx, beginTime, err)
 			return err
 		}
 		body = z
@@ -487,6 +492,7 @@ func (m *Mux) serveHTTP(w http.ResponseWriter, r *http.Request) error {
 		w.Header().Set("Content-Encoding", acceptEncoding)
 		z, err := cz.Compress(w)
 		if err != nil {
+			m.opts.endRPC(ctx, beginTime, err)
 			return err
 		}
 		defer z.Close()
@@ -536,6 +542,19 @@ func (m *Mux) serveHTTP(w http.ResponseWriter, r *http.Request) error {
 		m.encError(w, r, herr)
 	}
 	return nil
+}
+
+// endRPC reports the end of an RPC to the stats handler on the paths that leave
+// serveHTTP or serveGRPC after Begin without reaching their regular stats block.
+func (o *muxOptions) endRPC(ctx context.Context, beginTime time.Time, err error) {
+	if sh := o.statsHandler; sh != nil {
+		sh.HandleRPC(ctx, &stats.End{
+			Client:    false,
+			BeginTime: beginTime,
+			EndTime:   time.Now(),
+			Error:     err,
+		})
+	}
 }
 
 func streamHTTPFromCtx(ctx context.Context) (*streamHTTP, error) {
